@@ -121,13 +121,28 @@ def Art.isVal (a : Art) : Bool := match a.v with | .tok _ => false | _ => true
 def podLookup (p : String) : Option (Int × Int) :=
   match Gen.podHours.find? (·.1 == p) with | some (_, a, b) => some (a, b) | none => none
 
-/-- the table rebuilt by the recursion of `_mk_pod_hours` from the generated nested dictionary -/
-partial def mkPodAux (pod : String) (node : Gen.PodNode) (t : Int × Int) : List (String × Int × Int) :=
-  match node with
-  | .mk lo hi kids =>
+/-- the table rebuilt by the recursion of `_mk_pod_hours` from the generated nested dictionary (depth-fuelled) -/
+def mkPodAux : Nat → String → Gen.PodNode → Int × Int → List (String × Int × Int)
+  | 0, _, _, _ => []
+  | f+1, pod, .mk lo hi kids, t =>
     let here := (t.1 + lo, t.2 + hi)
-    (pod, here.1, here.2) :: kids.flatMap fun (k, v) => mkPodAux (k ++ pod) v here
-def mkPodHours : List (String × Int × Int) := Gen.podNested.flatMap fun (k, v) => mkPodAux k v (0, 0)
+    (pod, here.1, here.2) :: kids.flatMap fun (k, v) => mkPodAux f (k ++ pod) v here
+def mkPodHours : List (String × Int × Int) := Gen.podNested.flatMap fun (k, v) => mkPodAux 8 k v (0, 0)
+
+/-- hash model: the tuple of `_attrs` values (`Artifact.__hash__` hashes exactly this tuple) -/
+def optS : Option Int → String | some x => toString x | none => "None"
+def Time.attrVal (t : Time) : String → String
+  | "year" => optS t.year | "month" => optS t.month | "day" => optS t.day | "hour" => optS t.hour
+  | "minute" => optS t.minute | "DOW" => optS t.dow | "POD" => t.pod.getD "None" | _ => "?"
+def Time.hashKey (t : Time) : List String := Gen.timeAttrs.map t.attrVal
+def optTimeKey : Option Time → List String | some t => "T" :: t.hashKey | none => ["None"]
+def Art.hashKey (a : Art) : List String :=
+  match a.v with
+  | .tok k => [toString a.ms, toString a.me, toString k.id]
+  | .time t => t.hashKey
+  | .interval f t => Gen.intervalAttrs.flatMap fun n => if n == "t_from" then optTimeKey f else if n == "t_to" then optTimeKey t else ["?"]
+  | .duration n u => Gen.durationAttrs.map fun x =>
+      if x == "value" then toString n else if x == "unit" then u.name else if x == "mstart" then toString a.ms else if x == "mend" then toString a.me else "?"
 
 /-! ### accessors -/
 def Time.start (t : Time) : Except PyErr Time := do
